@@ -480,6 +480,10 @@ func (m *MetadataStore) GroupJoin(ctx context.Context, g *protocoltypes.Group) (
 		return nil, errcode.ErrCode_ErrGroupInvalidType
 	}
 
+	if g.GetGroupType() != protocoltypes.GroupType_GroupTypeMultiMember {
+		return nil, errcode.ErrCode_ErrGroupInvalidType
+	}
+
 	if err := g.IsValid(); err != nil {
 		return nil, errcode.ErrCode_ErrDeserialization.Wrap(err)
 	}
